@@ -40,7 +40,10 @@ pub(crate) fn fragment_event(event: &'static str, index: u32) {
 // and `[3, plane-1 byte offset, plane-1 byte length, plane-2 byte offset, plane-2
 // byte length, range offset, range width, range y, output byte offset, native
 // bytes per pixel, channel conversion needed]` for a call of a
-// `ProcessBiPlanarFn`.
+// `ProcessBiPlanarFn`. The encoders report `[4, buffer pixels, view is contiguous]`
+// at the start of `for_each_chunk`, `[5, pixels]` for every chunk it hands to
+// `process_chunk`, and `[6, row, pixels, encoded blocks]` for every chunk of the
+// sub-sampled encoder.
 
 thread_local! {
     static BLOCK_TRACE: std::cell::RefCell<Option<Vec<Vec<usize>>>> = const { std::cell::RefCell::new(None) };
